@@ -454,7 +454,7 @@ func gen(g *hx.Gen) {
 	}
 
 	// 5. planar by construction, up to n = 60 (thorough: 120), with chains
-	for i := 0; i < g.Pick(400, 4500); i++ {
+	for i := 0; i < g.Pick(400, 3800); i++ {
 		n := r.Range(5, 60)
 		if g.Thorough() && r.Chance(1, 6) {
 			n = r.Range(60, 120)
@@ -474,7 +474,7 @@ func gen(g *hx.Gen) {
 	}
 
 	// 6. non-planar by construction with a certificate, hidden behind planar material
-	for i := 0; i < g.Pick(260, 3500); i++ {
+	for i := 0; i < g.Pick(260, 3000); i++ {
 		b := hiddenKuratowski(r, r.Range(3, 25))
 		emit(lim, b, randomToks(r, r.Range(3, 10), 4, 0, 2, 0))
 	}
